@@ -110,7 +110,13 @@ def main():
         except Exception as e:  # noqa
             res = {'exc': type(e).__name__, 'msg': str(e)[:300]}
     elif mode == 'roundtrip':
-        res = [roundtrip(c, i) for i, c in enumerate(payload['cases'])]
+        res, timeouts = [], 0
+        for i, c in enumerate(payload['cases']):
+            if timeouts >= 3:
+                res.append({'ok': False, 'exc': 'TimeoutError', 'msg': 'skipped after 3 timeouts'})
+                continue
+            res.append(roundtrip(c, i))
+            timeouts += res[-1].get('exc') == 'TimeoutError'
     elif mode == 'boolean':
         res = [boolean(s) for s in payload['cases']]
     else:
